@@ -12,6 +12,13 @@ Rules (DESIGN.md section 4, C12):
 
 Added after the second and third seeding rounds:
   poll-value-propagated  every should_cancel_with_value call in the solver is matched and its Some payload reaches Err / Cancelled
+
+Added after the fifth seeding round:
+  poll-per-round/calls:next_unpropagated|cursor  a propagation round (walk over the unpropagated trail) exists only inside
+                     propagate, behind the poll (seed C12-14: the learn loop re-propagating through a poll-less helper)
+  payload-provenance/Cancelled-carries-the-polled-value  a Cancelled variant without payload loses the provider's value (C12-15)
+  result-must-use    a hand-written match with an arm of its own for Err(Cancelled(..)) must take the payload out in that arm,
+                     whatever the other arms do (seed C15-12: `Err(Cancelled(_)) => break` returns the interrupted state as a solution)
 """
 from common import *
 import q
